@@ -4,6 +4,10 @@
     gobuild def <schemas-id> <builders-id> <builders-vir> <defaults>
         <defaults> = (defaults ("pkg" "Object" <json-sexp of New<Object>()>)*) ; stores the context
         → ok | bad-…
+    goconvert <schemas-id> <builders-id> <pkg> <builder> <json-sexp>
+        decode the document into the builder's object (C01's decoder model), run the model of the
+        generated converter, replay the call list through the builder model
+        → <calls> \t <status> \t <json of the rebuilt builder.internal> \t errors=…
     gobuild <schemas-id> <builders-id> <pkg> <builder> <calls>
         <calls> = (build (ctor ARG*) (call "option" ARG*)*)
         ARG     = (j <json-sexp>) | (b "Builder" (ctor ARG*) (call "option" ARG*)*) | (fail be|plain)
@@ -12,6 +16,7 @@
         | panic <why> | unsup <why> | fuel
 -/
 import Cog.Sem.GoBuilder
+import Cog.Sem.Converter
 import Cog.Builder.Vir
 import Cog.Drv.SchemaStore
 import Cog.Drv.ValidateDrv
@@ -109,6 +114,67 @@ def gobuildLine (rest : String) : IO String := do
         match findBuilder c.bs bname with
         | none => return "unknown-builder"
         | some b => return showBRes c b (runBuilder 8 c b ctor calls)
+  | _ => return "bad-request"
+
+
+/-! ### goconvert -/
+
+partial def jsonOut : Json → Sexp
+  | .null => .atom "null"
+  | .bool true => .atom "true"
+  | .bool false => .atom "false"
+  | .num q => .list [.atom "n", .str (Json.numText q)]
+  | .str s => .list [.atom "s", .str s]
+  | .arr xs => .list (.atom "a" :: xs.map jsonOut)
+  | .obj kvs => .list (.atom "o" :: kvs.map fun (k, v) => .list [.str k, jsonOut v])
+
+def sortByKey {α} (l : List (String × α)) : List (String × α) :=
+  (l.toArray.qsort (fun a b => a.1 < b.1)).toList
+
+mutual
+partial def argOut : Arg → Sexp
+  | .json j => .list [.atom "j", jsonOut j]
+  | .val v => .list [.atom "j", jsonOut (GoVal.goEncode v)]
+  | .fail be => .list [.atom "fail", .atom (if be then "be" else "plain")]
+  | .builder name ctor calls => .list (.atom "b" :: .str name :: bodyOut ctor calls)
+  | .list xs =>
+    if xs.all (fun a => match a with | .val _ => true | .json _ => true | _ => false) then
+      .list [.atom "j", .list (.atom "a" :: xs.map fun a => match argOut a with | .list [_, j] => j | s => s)]
+    else .list (.atom "l" :: xs.map argOut)
+  | .dict kvs =>
+    let kvs := sortByKey kvs
+    if kvs.all (fun kv => match kv.2 with | .val _ => true | .json _ => true | _ => false) then
+      .list [.atom "j", .list (.atom "o" :: kvs.map fun kv => .list [.str kv.1, match argOut kv.2 with | .list [_, j] => j | s => s])]
+    else .list (.atom "d" :: kvs.map fun kv => .list [.str kv.1, argOut kv.2])
+partial def bodyOut (ctor : List Arg) (calls : List Call) : List Sexp :=
+  .list (.atom "ctor" :: ctor.map argOut) ::
+    calls.map fun cl => .list (.atom "call" :: .str cl.opt :: cl.args.map argOut)
+end
+
+def goconvertLine (rest : String) : IO String := do
+  match rest.splitOn " " with
+  | _sid :: bid :: _pkg :: bname :: more =>
+    match (← builderStore.get).get? bid with
+    | none => return "unknown-builders"
+    | some c =>
+      match (Sexp.parse (" ".intercalate more)).bind Json.ofSexp with
+      | none => return "bad-json"
+      | some j =>
+        match findBuilder c.bs bname with
+        | none => return "unknown-builder"
+        | some b =>
+          match decodeMinFuel c.ss (.ref b.for_.selfPkg b.for_.selfName {}) j 12 3 with
+          | .ok v =>
+            match Conv.convert c b v with
+            | .ok r =>
+              let calls := (Sexp.list (.atom "build" :: bodyOut r.1 r.2)).render
+              return calls ++ "\t" ++ showBRes c b (Conv.replay c b r)
+            | .panic w => return "panic " ++ w
+            | .unsup w => return "unsup " ++ w
+            | .fuel => return "fuel"
+          | .err => return "decerr"
+          | .unsup w => return "unsup " ++ w
+          | .fuel => return "fuel"
   | _ => return "bad-request"
 
 end Cog.Drv
